@@ -269,7 +269,7 @@ def spec_auth_check(ck):
     if fn is None:
         return
     ex = ck.engine(loop_bound=5)
-    ex.benign_havoc = re.compile(r'.')
+    ex.benign_havoc = BENIGN
     ex.eq_bound = 12
     st = State()
     required = z3.Bool('required')
@@ -307,6 +307,8 @@ def spec_auth_check(ck):
     creds = Agg('Option', {}, has_creds, {1: {0: Agg('tuple', {0: user, 1: pw})}}, opt)
     ex.inputs = {'required': required, 'external_command_accepts': cmd_ok, 'credentials_presented': has_creds, 'configured_users': nusers,
                  'user': user, 'pass': pw, 'entry_user': eu, 'entry_pass': ep}
+    ex.host_ascii = [user, pw, eu, ep]
+    ck.plans.append(_auth_replay_plan)
     outs = run_async(ex, st, fn, [Ref(st.alloc(me), ()), Ref(st.alloc(creds), ())])
     for o, r in outs:
         if o.status != 'returned' or r is None:
@@ -316,3 +318,23 @@ def spec_auth_check(ck):
         ex.prove(o, 'C07/auth/check-accepts-exactly-unrequired-or-listed-or-command-approved', r.t == exp)
     ck.absorb(ex, 'AuthData::check', [o for o, _ in outs])
     ck.bounds['AuthData::check'] = 'user list of <= 1 entry, user/password strings <= 12 bytes, symbolic external-command verdict'
+
+
+def _auth_replay_plan(ob):
+    f = ob.finding
+    if f is None or not ob.label.startswith('C07/auth/'):
+        return None
+    i = f.inputs
+    if i.get('external_command_accepts'):
+        return None      # the external command is not replayed
+    hx = lambda k: i.get(k, {}).get('hex', '')
+    users = [[hx('entry_user'), hx('entry_pass')]] if i.get('configured_users') else []
+    creds = [hx('user'), hx('pass')] if i.get('credentials_presented') else None
+    try:
+        for k in ('user', 'pass', 'entry_user', 'entry_pass'):
+            bytes.fromhex(hx(k)).decode('utf-8')
+    except Exception:
+        return None
+    expected = (not i.get('required')) or (creds is not None and creds in users)
+    case = {'driver': 'check', 'args': {'required': bool(i.get('required')), 'users': users, 'creds': creds}}
+    return 'auth', case, lambda o: not o.get('panicked') and o.get('accepted') is not None and o.get('accepted') != expected
